@@ -341,6 +341,8 @@ type C18EncCase struct {
 	Filler int    `json:"filler,omitempty"`
 	ULit   int    `json:"ulit,omitempty"`
 	Final  bool   `json:"final,omitempty"`
+	ZOneIn int    `json:"z_one_in,omitempty"` // mode "domlit"
+	Gap    int    `json:"gap,omitempty"`
 	AtEnd  bool   `json:"at_end,omitempty"` // the single burst comes after all ladder copies (so Pad alone decides where it lands in the output)
 }
 
@@ -495,9 +497,48 @@ func (c C18EncCase) skewData() []byte {
 	return b
 }
 
+// domlitData: "F r F r ..." with r random and F one dominant byte (a 1-bit code) or, one time in
+// ZOneIn, a second byte (a 3..5-bit code); no 4-byte substring repeats, so nearly every token is a
+// literal. Clusters of 3..5 F bytes are sprinkled in (about one per Gap bytes): where one falls into
+// the last bytes of a buffer fill, the Go tail of the match finder emits it as single-literal
+// tokens of 1..5 bits in mid-block - groups of tokens that total less than one byte.
+func (c C18EncCase) domlitData() []byte {
+	x := c.Seed*0x9E3779B97F4A7C15 + 13
+	next := func() uint64 {
+		x ^= x << 13
+		x ^= x >> 7
+		x ^= x << 17
+		return x
+	}
+	f := func() byte {
+		if next()%uint64(c.ZOneIn) == 0 {
+			return 'Z'
+		}
+		return 'X'
+	}
+	out := make([]byte, 0, c.Size+8)
+	for len(out) < c.Size {
+		if next()%uint64(c.Gap) < 2 {
+			for k, n := 0, 3+int(next()%3); k < n; k++ {
+				out = append(out, f())
+			}
+		}
+		out = append(out, f())
+		r := byte(next() >> 24)
+		for r == 'X' || r == 'Z' {
+			r = byte(next() >> 24)
+		}
+		out = append(out, r)
+	}
+	return out[:c.Size]
+}
+
 func (c C18EncCase) data() []byte {
 	if c.Mode == "skew" {
 		return c.skewData()
+	}
+	if c.Mode == "domlit" {
+		return c.domlitData()
 	}
 	x := c.Seed*0x9E3779B97F4A7C15 + 99
 	next := func() uint64 {
@@ -555,7 +596,11 @@ func TestC18Enc(t *testing.T) {
 			Ctor:    rapid.SampledFrom([]string{"new", "new", "4k"}).Draw(t, "ctor"),
 		}
 		label := "token-encoder-stress"
-		if rapid.IntRange(0, 2).Draw(t, "skew") > 0 {
+		if rapid.IntRange(0, 3).Draw(t, "domlit") == 0 {
+			label = "token-encoder-tiny-tokens"
+			c = C18EncCase{Seed: c.Seed, Mode: "domlit", Ctor: rapid.SampledFrom([]string{"4k", "4k", "new"}).Draw(t, "dctor"), Level: rapid.SampledFrom([]int{1, 2}).Draw(t, "dlevel"),
+				Size: rapid.IntRange(9000, 90000).Draw(t, "dsize"), ZOneIn: rapid.SampledFrom([]int{4, 8, 8, 16}).Draw(t, "zonein"), Gap: rapid.SampledFrom([]int{16, 32, 64}).Draw(t, "gap")}
+		} else if rapid.IntRange(0, 2).Draw(t, "skew") > 0 {
 			label = "token-encoder-skewed-codes"
 			c.Mode, c.Size, c.MaxLen, c.MinBack, c.MaxLits = "skew", 0, 0, 0, 0
 			c.Level = rapid.SampledFrom([]int{-1, 1, 2}).Draw(t, "slevel")
